@@ -19,12 +19,14 @@ func VerifHarness_C20_records() {
 	if verifrt.Thorough() {
 		lens = []int{0, 1, 2, 4, 5, 8, 9, 12, 13, 16, 20, 24}
 	}
-	kind := verifrt.Choose("record", 6)
+	kind := verifrt.Choose("record", 9)
 	n := lens[verifrt.Choose("len", len(lens))]
 	data := verifrt.Bytes("in", n)
 	verifrt.AllocObligation("C20.alloc.proportional-to-input", 1<<20, 64, n)
 	store := newVkStore()
-	names := []string{"peers", "active-reorg", "reorg-list", "unconfirmed", "tx-block", "block-headers"}
+	names := []string{"peers", "active-reorg", "reorg-list", "unconfirmed", "tx-block", "block-headers", "tx-block-add", "tx-block-remove", "tx-block-contains"}
+	var probe bitcoin.Hash32
+	probe[0] = 0x77
 	var err error
 	panicked, what := verifrt.Catch(func() {
 		switch kind {
@@ -48,6 +50,17 @@ func VerifHarness_C20_records() {
 			repo := NewTxRepository(store)
 			store.Write(ctx, repo.buildPath(7), data, nil)
 			_, err = repo.GetBlock(ctx, 7)
+		case 6, 7, 8: // the walkers of the per-height tx id file
+			repo := NewTxRepository(store)
+			store.Write(ctx, repo.buildPath(7), data, nil)
+			switch kind {
+			case 6:
+				_, _, err = repo.Add(ctx, probe, true, true, 7)
+			case 7:
+				_, err = repo.Remove(ctx, probe, 7)
+			case 8:
+				_, err = repo.Contains(ctx, probe, 7)
+			}
 		case 5:
 			store.Write(ctx, "spynode/blocks/00000000", data, nil)
 			repo := NewBlockRepository(config.Config{Net: bitcoin.MainNet}, store)
